@@ -403,3 +403,48 @@ def run(ctx):
     from checks import c20_charts
 
     c20_charts.run(ctx, prog, S, M, all_markers, "R7.8")
+
+    _r79(ctx, prog)
+
+
+# -- R7.9 -------------------------------------------------------------------------------------------
+def _r79(ctx, prog):
+    """`Category.idx` (the c:pt/@idx of a category in a level, and the offset of its leaves) is the position of that very object in
+    the hierarchy: `Categories.index` / `Category.index` look the node up among its siblings.  Two siblings may carry the same label
+    (and the same sub-tree), so the lookup has to tell them apart by identity: with an equality lookup (`==`, `in`, `list.index`) and
+    a value-style `__eq__` on the node class the first equal sibling is found, and a repeated label gets the idx of its first
+    occurrence - the cached points of a level collide."""
+    ctx.rule("R7.9", "a category's position among its siblings is found by identity")
+    dm = prog.modules.get("pptx.chart.data")
+    cat = dm.classes.get("Category") if dm else None
+    cats = dm.classes.get("Categories") if dm else None
+    if not (cat and cats):
+        raise AnalysisError("anchor vanished: pptx.chart.data.Category / Categories")
+    from checks.c02 import _identity_eq
+
+    eq = prog.lookup(cat, "__eq__")
+    value_eq = eq is not None and not _identity_eq(eq)
+    n = 0
+    for c in (cats, cat):
+        f = c.methods.get("index")
+        if f is None:
+            ctx.error("%s.index" % c.name, "position lookup not found")
+            continue
+        n += 1
+        key = "%s.index" % c.name
+        p = f.params[1] if len(f.params) > 1 else None
+        by_is = [x for x in ast.walk(f.node) if isinstance(x, ast.Compare) and len(x.ops) == 1 and isinstance(x.ops[0], (ast.Is, ast.IsNot))
+                 and p in (dotted(x.left), dotted(x.comparators[0]))]
+        by_eq = [x for x in ast.walk(f.node) if isinstance(x, ast.Compare) and len(x.ops) == 1 and isinstance(x.ops[0], (ast.Eq, ast.NotEq, ast.In, ast.NotIn))
+                 and p in (dotted(x.left), dotted(x.comparators[0]))]
+        by_eq += [x for x in ast.walk(f.node) if isinstance(x, ast.Call) and isinstance(x.func, ast.Attribute) and x.func.attr in ("index", "count")
+                  and x.args and dotted(x.args[0]) == p and dotted(x.func.value) not in ("self._parent",)]
+        if by_eq and value_eq:
+            ctx.violation("R7.9", key, "%s looks the node up by equality (`%s`) and %s defines a value-style __eq__ (line %d): of two siblings with the "
+                          "same label the first is found, so a repeated label gets the idx of its first occurrence" % (
+                              key, ast.unparse(by_eq[0])[:60], cat.name, eq.line), file=f.file, line=by_eq[0].lineno)
+        elif by_eq or by_is:
+            ctx.ok("R7.9", key, sample={"lookup": "identity (`is`)" if by_is and not by_eq else "equality, and %s keeps object identity as equality" % cat.name})
+        else:
+            ctx.error(key, "how the node is located among its siblings is not recognised")
+    ctx.count("position_lookups", n)
